@@ -1212,7 +1212,15 @@ fn main() {
                         17 => Kind::MultiLayer,
                         _ => Kind::Dynamic,
                     };
-                    let w = gen_workload(&mut rng, kind, max_ops.max(4));
+                    let mut w = gen_workload(&mut rng, kind, max_ops.max(4));
+                    if kind == Kind::Dynamic && rng.bool() {
+                        // concurrent writers of DIFFERENT objects (appends to the same archive file), each
+                        // followed by reads of its own and of a neighbour's object
+                        w.prepop.clear();
+                        w.tasks = (0..3u8)
+                            .map(|t| vec![OpSpec::Put(t, u32::from(t) + 1), OpSpec::Get(t), OpSpec::Get((t + 1) % 3), OpSpec::Get(t)])
+                            .collect();
+                    }
                     let mode = Mode::Stress { seed: mix64(ctx.seed, mix64(t, i)), max_spin_ns: 50_000 };
                     let ex = match execute_guarded(&w, mode.clone()) {
                         Ok(e) => e,
